@@ -130,16 +130,18 @@ func (p MembershipProof) DigestVerify(digest hashing.Digest, snapshot *Snapshot)
 		return false
 	}
 
-	hyperCorrect := p.HyperProof.Verify(digest, snapshot.HyperDigest)
-
-	if p.Exists {
-		if p.ActualVersion <= p.QueryVersion {
-			historyCorrect := p.HistoryProof.Verify(digest, snapshot.HistoryDigest)
-			return hyperCorrect && historyCorrect
-		}
+	// Only an existence claim can be verified, and it needs both proofs: the hyper
+	// proof binds a digest prefix to a version, the history proof binds that
+	// version to the digest. A shortcut leaf does not bind the whole key, so the
+	// hyper proof alone proves nothing, and the history proof is only sound for
+	// an actual version not beyond the queried one.
+	if !p.Exists || p.ActualVersion > p.QueryVersion {
+		return false
 	}
 
-	return hyperCorrect
+	hyperCorrect := p.HyperProof.Verify(digest, snapshot.HyperDigest)
+	historyCorrect := p.HistoryProof.Verify(digest, snapshot.HistoryDigest)
+	return hyperCorrect && historyCorrect
 }
 
 // Verify verifies a proof and answer from QueryMembership. Returns true if the
